@@ -434,6 +434,8 @@ def _schema_w():
     types["PairIn"] = {"kind": "input", "fields": {"a": {"type": "Int!", "default": "1"}, "b": {"type": "Int!", "default": None}}}
     qfields["pairobj"] = _f("String", {"x": _a("PairIn")}, echo=True)
     qfields["plain"] = _f("String")
+    # a Boolean! argument WITH a default: shares its (printed) type with the `if` argument of @skip / @include
+    qfields["flagged"] = _f("String", {"flag": _a("Boolean!", "false")}, echo=True)
     types_all = {"Query": {"kind": "object", "interfaces": [], "fields": qfields}}
     types_all.update(types)
     types_all["Color"] = {"kind": "enum", "values": {"RED": 1, "GREEN": 2}}
